@@ -472,6 +472,16 @@ fn run_case(line: &str) -> String {
                         }
                     },
                     ["g"] => parts.push(format!("g:{}", sink.0.borrow().out.len())),
+                    ["o"] => {
+                        // Stream::get_output / get_output_mut: Some(sink) while the stream is alive, None after a failed write
+                        let a = st.as_ref().unwrap().get_output().map(|k| k.0.borrow().out.len());
+                        let b = st.as_mut().unwrap().get_output_mut().map(|k| k.0.borrow().out.len());
+                        match (a, b) {
+                            (Some(x), Some(y)) if x == y => parts.push(format!("o:{}", x)),
+                            (None, None) => parts.push("o:none".to_string()),
+                            _ => parts.push("o:inconsistent".to_string()),
+                        }
+                    }
                     ["x"] => {
                         let s = st.take().unwrap();
                         match catch_unwind(AssertUnwindSafe(|| s.finish())) {
@@ -484,7 +494,7 @@ fn run_case(line: &str) -> String {
                 }
             }
             let out = hex(&sink.0.borrow().out);
-            format!("res={} out={}", parts.join(";"), out)
+            format!("res={} out={} fl={}", parts.join(";"), out, sink.0.borrow().flushes)
         }
         _ => format!("unknown-op {}", op),
     }
